@@ -14,6 +14,7 @@ CONCEPTS = ['alpha', 'beta', 'Chase-01', '"str ing"', '"(x"', 'a', 'b', '7', 'ha
 ROLES_PLAIN = [':ARG0', ':ARG1', ':ARG2', ':op1', ':op2', ':op10', ':mod', ':domain', ':quant', ':polarity',
                ':consist-of', ':prep-on-behalf-of', ':superset', ':subset', ':poss', ':beneficiary', ':name',
                ':foo', ':R', ':', ':snt3', ':wiki', ':time', ':location', ':ARG10', ':role', ':employed-by', ':TOP',
+               ':consist', ':prep-on-behalf', ':prep-out-of', ':prep-out', ':mode', ':year2', ':year', ':prep-on',
                ':instance']
 CONSTS = ['-', '+', '7', '0', '0.0', '-1.5e3', '"a b"', '"x:y(z)"', '"\\"q\\""', '"C:\\\\"', '"e\\\\\\"f"', 'imperative', 'x~y', '"t~1"',
           '"#h"', 'a/b', 'Ω', '"é "', '""', '1e400', 'true', 'null', 'NaN']
@@ -143,15 +144,19 @@ class TreeGen:
             ro = self.role_()
             if self.wf and ro.startswith(':instance'):
                 continue        # an explicit :instance role is a second way to write the concept
-            ro += self.al()
+            ra = self.al()
+            ro += ra
             k = rng.random()
             if k < 0.35 and self.budget > 0 and depth < 12:
                 tgt = self.node(depth + 1)
             elif k < 0.6 and self.used:
-                tgt = rng.choice(self.used) + self.al(0.1)      # re-entrancy (or self-loop)
+                # re-entrancy (or self-loop); sometimes the SAME alignment as on the role
+                tgt = rng.choice(self.used) + (ra if ra and maybe(rng, 0.4) else self.al(0.1))
             elif k < 0.93:
                 tgt = self.const_()
-                if not tgt.startswith('"') or maybe(rng, 0.4):
+                if ra and maybe(rng, 0.4):
+                    tgt += ra
+                elif not tgt.startswith('"') or maybe(rng, 0.4):
                     tgt += self.al(0.1)
             else:
                 tgt = None
@@ -211,9 +216,11 @@ def reified_tree(rng):
                 inner = [('/', concept + aln(rng, 0.2)), (tr, tgt)]
                 bs.append((sr + '-of', (rv, inner)))
             elif k < 0.6:
-                bs.append((role + aln(rng, 0.2), rng.choice(used)))          # reifiable re-entrancy
+                a1 = aln(rng, 0.3)
+                bs.append((role + a1, rng.choice(used) + (a1 if maybe(rng, 0.5) else '')))    # reifiable re-entrancy
             elif k < 0.8:
-                bs.append((role, rng.choice(['7', '-', '"s"']) + aln(rng, 0.2)))
+                a1 = aln(rng, 0.3)
+                bs.append((role + a1, rng.choice(['7', '-', '"s"']) + (a1 if maybe(rng, 0.5) else aln(rng, 0.2))))
             elif depth < 3:
                 tv = fresh()
                 bs.append((rng.choice([':ARG0', ':ARG1', ':op1']), node(tv, depth + 1)))
